@@ -126,7 +126,18 @@ def check_roundtrip(lx: LayoutExtractor, rep, prefix='C01'):
                 rep.undecided(R('O1'), '%s: %s was added after the codec rules were confirmed and its encoder / decoder are not in a form '
                               'the layout extractor reads: its round trip is not decided' % (c.loc(), c.name))
                 continue
-        lay = lx.layout(c)
+        try:
+            lay = lx.layout(c)
+        except AnalysisError as exc_:
+            # one class the extractor cannot read does not stop the others from being judged
+            rep.undecided(R('O1'), str(exc_))
+            for an_ in ('item_type', 'pdu_type'):
+                hit_ = c.find_attr(an_)
+                if hit_ is not None:
+                    v_ = lx.repo.try_fold(hit_[1], hit_[0].module, hit_[0])
+                    if isinstance(v_, int) and not isinstance(v_, bool):
+                        type_of[c.name] = v_
+            continue
         rep.analysed(lay.enc_f)
         rep.analysed(lay.dec_f)
         loc = c.loc()
@@ -381,7 +392,11 @@ def check_wire(lx: LayoutExtractor, rep, prefix='C02', only=None, rule_map=None)
             rep.bad(R('L1'), 'pdu:%s:type' % name, '', 'codec class %s required by the standard layout table is missing' % name)
             continue
         c = classes[name]
-        lay = lx.layout(c)
+        try:
+            lay = lx.layout(c)
+        except AnalysisError as exc_:
+            rep.undecided(R('L1'), str(exc_))
+            continue
         loc = c.loc()
         rep.analysed(lay.enc_f)
         # L1
